@@ -92,3 +92,21 @@ Fixpoint spec_tok (s : str) (d : nat) (pb : bool) (cur : str) : list str :=
     else spec_tok t (bl_step d c) (N.eqb c c_bslash) (c :: cur)
   end.
 Definition spec_tokens (s : str) : list str := spec_tok s 0 false [].
+
+(* ---- the comma parts of a name: the pieces of the string between its brace-level-0 commas (one pass with
+   the brace level [d] and the current piece [cur], reversed; every level-0 comma ends a piece -- also an
+   empty one -- and nothing else does), and the number of those commas ---- *)
+Fixpoint spec_cp (s : str) (d : nat) (cur : str) : list str :=
+  match s with
+  | [] => [rev cur]
+  | c :: t =>
+    if Nat.eqb d 0 && N.eqb c c_comma then rev cur :: spec_cp t 0 []
+    else spec_cp t (bl_step d c) (c :: cur)
+  end.
+Definition spec_comma_pieces (s : str) : list str := spec_cp s 0 [].
+Fixpoint level0_commas_from (s : str) (d : nat) : nat :=
+  match s with
+  | [] => 0
+  | c :: t => if Nat.eqb d 0 && N.eqb c c_comma then S (level0_commas_from t 0) else level0_commas_from t (bl_step d c)
+  end.
+Definition level0_commas (s : str) : nat := level0_commas_from s 0.
